@@ -42,6 +42,31 @@ class M2F(M2):
     mode = "monitor"
 
 
+class M2GC(plug.Model):
+    """the real operators with the cyclic collector (sequential histories with gc.collect() events); monitors only"""
+    name = "m2gc"
+    mode = "monitor"
+
+    def run(self, sc, chooser, seed):
+        from . import m2_gcprobe
+        return m2_gcprobe.run_scenario(sc)
+
+    def shape(self, sc):
+        from . import m2_gcprobe
+        return m2_gcprobe.shape(sc)
+
+    def est_steps(self, sc):
+        return 20
+
+
+MODELGC = M2GC()
+
+
+def gengc(rng, prop, job):
+    from . import m2_gcprobe
+    return m2_gcprobe.gen_scenario(rng, prop)
+
+
 MODELS = {p: M2(p) for p in ("C03", "C04", "C15")}
 MODELF = M2F("C04")
 
@@ -88,6 +113,14 @@ def make_jobs(prop, tier, seed):
     if prop == "C04":
         for j in range(4 if tier == "quick" else 24):
             jobs.append({"kind": "explore", "side": "fine", "prop": prop, "seed": seed * 15485863 + j, "scenarios": 6, "schedules": 16, "no_driver": True})
+    if tier == "thorough":
+        for j in range(24):
+            jobs.append({"kind": "pbound", "prop": prop, "seed": seed * 104729 + j, "k": 2, "budget": 1200})
+    else:
+        jobs.append({"kind": "pbound", "prop": prop, "seed": seed * 104729, "k": 1, "budget": 100})
+    if prop in ("C03", "C04"):
+        for j in range(4 if tier == "quick" else 32):
+            jobs.append({"kind": "explore", "side": "gc", "prop": prop, "seed": seed * 49979687 + j, "scenarios": 250, "schedules": 1, "no_driver": True})
     return jobs
 
 
@@ -98,15 +131,27 @@ def search_jobs(prop, tier, seed, corr_fail):
 def run_job(job):
     if job["kind"] == "layer":
         return run_layer(job)
+    if job["kind"] == "pbound":
+        return plug.pbound_job(MODELS[job["prop"]], plug.smallest_of(gen), job)
     rp0 = (job.get("replay") or {}).get("replay") or job.get("replay") or (job.get("failure") or {}).get("replay") or {}
     if rp0.get("model") == "m1-layer":
         from . import p_m1
         if job["kind"] == "shrink":
             return {"failure": job["failure"]}
         return p_m1.run_job({"kind": "replay", "prop": "C02", "replay": rp0.get("inner") or {}})
+    if job.get("side") == "gc":
+        return plug.std_job(MODELGC, gengc, job)
     if job.get("side") == "fine":
         return plug.std_job(MODELF, genf, job)
     rp = (job.get("replay") or {}).get("replay") or job.get("replay") or (job.get("failure") or {}).get("replay") or {}
+    if (rp.get("scenario") or {}).get("gcprobe"):
+        if job["kind"] == "shrink":
+            return {"failure": job["failure"]}
+        res = plug.run_batch(MODELGC, job["prop"], [(rp["scenario"], None, 0, [])], use_driver=False)
+        if "infra_error" in res:
+            return res
+        hit = res["mon_fail"]
+        return {"violated": bool(hit), "message": hit[0]["msg"] if hit else "the composite agreed with its operands under cyclic collections"}
     if (rp.get("scenario") or {}).get("fine"):
         if job["kind"] == "shrink":
             return {"failure": job["failure"]}
